@@ -106,8 +106,88 @@ func (p *Program) CondsAt(b *ssa.BasicBlock) []Cond {
 			}
 		}
 	}
+	return p.withImplied(out)
+}
+
+// withImplied: a condition that is the outcome of a boolean helper of the module (`if expired(m)`)
+// also tells what the helper tested. The helper's own tests, with its parameters replaced by the
+// call's arguments, are appended (the original outcome stays): for a helper with a single return
+// statement the returned expression's atom; for a helper returning constants, the branch outcomes
+// that hold at its only return of that truth value.
+func (p *Program) withImplied(cs []Cond) []Cond {
+	out := cs
+	for i := 0; i < len(out) && len(out) < 64; i++ {
+		out = append(out, p.impliedBy(out[i])...)
+	}
 	return out
 }
+
+func (p *Program) impliedBy(k Cond) []Cond {
+	a := k.Atom
+	if a == nil || a.Op != "call" || a.Fn == nil {
+		return nil
+	}
+	g := a.Fn
+	if len(g.Blocks) == 0 || g.Pkg == nil || !p.inModule(g.Pkg.Pkg.Path()) || g.Signature.Results().Len() != 1 || !isBool(g.Signature.Results().At(0).Type()) {
+		return nil
+	}
+	if impliedBusy[g] {
+		return nil
+	}
+	impliedBusy[g] = true
+	defer delete(impliedBusy, g)
+	var rets []*ssa.Return
+	for _, b := range g.Blocks {
+		if len(b.Instrs) == 0 || b == g.Recover {
+			continue
+		}
+		if r, ok := b.Instrs[len(b.Instrs)-1].(*ssa.Return); ok {
+			rets = append(rets, r)
+		}
+	}
+	sub := func(c Cond, flip bool) Cond {
+		pol := c.Pol
+		if flip {
+			pol = !pol
+		}
+		return Cond{Atom: c.Atom.Subst(g, a.Args), Pol: pol, V: c.V, Branch: c.Branch}
+	}
+	if len(rets) == 1 {
+		v := RetVal(rets[0], 0)
+		if _, isConst := v.(*ssa.Const); isConst {
+			return nil
+		}
+		if _, isPhi := v.(*ssa.Phi); isPhi {
+			return nil // && / || : no single atom
+		}
+		c := p.condOf(v, true)
+		return []Cond{sub(c, !k.Pol)}
+	}
+	// constant returns: the unique return yielding k.Pol
+	var match *ssa.Return
+	for _, r := range rets {
+		cst, ok := RetVal(r, 0).(*ssa.Const)
+		if !ok || cst.Value == nil {
+			return nil
+		}
+		if (cst.Value.String() == "true") == k.Pol {
+			if match != nil {
+				return nil
+			}
+			match = r
+		}
+	}
+	if match == nil {
+		return nil
+	}
+	var out []Cond
+	for _, c := range p.CondsAt(match.Block()) {
+		out = append(out, sub(c, false))
+	}
+	return out
+}
+
+var impliedBusy = map[*ssa.Function]bool{}
 
 // edgeDominates: every path to b passes the edge d->s.
 func edgeDominates(d, s, b *ssa.BasicBlock) bool {
@@ -131,9 +211,9 @@ func (p *Program) CondsAtEdge(pred, b *ssa.BasicBlock) []Cond {
 	out := p.CondsAt(pred)
 	if ifi := blockIf(pred); ifi != nil && pred.Succs[0] != pred.Succs[1] {
 		if pred.Succs[0] == b {
-			out = append(out, p.condOf(ifi.Cond, true))
+			out = append(out, p.withImplied([]Cond{p.condOf(ifi.Cond, true)})...)
 		} else if pred.Succs[1] == b {
-			out = append(out, p.condOf(ifi.Cond, false))
+			out = append(out, p.withImplied([]Cond{p.condOf(ifi.Cond, false)})...)
 		}
 	}
 	return out
